@@ -48,7 +48,7 @@ theorem centroid_end_to_end (f : StatsFile) (lk : Lookup) (Q : List Gene) (rp : 
       ∀ le ∈ r, le.2.prob = 1 ∧ le.2.agg = some 1 ∧ le.2.ru = some ([], [], []) ∧
         (le.2.corr = none ∨ le.2.corr = some 1) ∧
         (ChoiceOnPath f.tree none path → le.2.corr = some 1) := by
-  have hT := Bridge.treeWF_of_WF (Bridge.WF_of_validate hv hN d)
+  have hT := Bridge.treeWF_of_WF (RawTree.WF.of_validate hv d)
   have hg := guardBelow_of_files f lk Q rp hT hfile hcn c hcache x lf hl hsame hsep
   have h0 : 0 < f.tree.hierarchy.length :=
     List.length_pos_of_ne_nil (RawTree.hierarchy_ne_nil_of_validate hv)
